@@ -30,7 +30,6 @@ NOT_YET = {
     'C07': 'schedule differential check under construction (DESIGN.md section 4, C07)',
     'C08': 'schedule race check under construction (DESIGN.md section 4, C08)',
     'C12': 'schedule grouping check under construction (DESIGN.md section 4, C12)',
-    'C17': 'panic fault enumeration under construction (DESIGN.md section 4, C17)',
 }
 
 
